@@ -724,6 +724,18 @@ def canonical_locals(ix, f, fn):
     """the locals of the array-declaration handler are given the names the rules speak of, by what they *are* (alpha-renaming, no capture):
     `value` - the list handed to np.array(...) as the concrete entries; `parameters` - the list that receives (position, symbol) pairs;
     `final_value` - the name stored into the variable table; `shape` - the tuple read from the shape child."""
+    if f.qual == "program.BlackbirdProgram.serialize":
+        # `script` - the list of lines whose join is returned
+        got = set()
+        for n in ast.walk(fn):
+            if isinstance(n, ast.Return) and isinstance(n.value, ast.Call) and isinstance(n.value.func, ast.Attribute) and n.value.func.attr == "join" and len(n.value.args) == 1 \
+                    and isinstance(n.value.args[0], ast.Name) and isinstance(n.value.func.value, ast.Constant):
+                got.add(n.value.args[0].id)
+        names = {x.id for x in ast.walk(fn) if isinstance(x, ast.Name)} | {a.arg for a in fn.args.posonlyargs + fn.args.args}
+        if len(got) == 1 and "script" not in names:
+            fn = _Rename({next(iter(got)): "script"}, {}).visit(fn)
+            ast.fix_missing_locations(fn)
+        return fn
     if f.qual != "listener.BlackbirdListener.exitArrayvar":
         return fn
     roles = {}
@@ -1913,6 +1925,31 @@ def fold_stdlib(ix, f, fn, consts, single):
             if op == "truth" and len(a) == 1:
                 return ast.copy_location(ast.Call(func=ast.Name(id="bool", ctx=ast.Load()), args=[a[0]], keywords=[]), node)
             return node
+        def visit_Assign(self, node):
+            self.generic_visit(node)
+            # head, tail = os.path.split(p)  ->  head = os.path.dirname(p); tail = os.path.basename(p)
+            v = node.value
+            if len(node.targets) == 1 and isinstance(node.targets[0], ast.Tuple) and len(node.targets[0].elts) == 2 and all(isinstance(t, ast.Name) for t in node.targets[0].elts) \
+                    and isinstance(v, ast.Call) and u(v.func) == "os.path.split" and len(v.args) == 1 and not v.keywords and isinstance(v.args[0], ast.Name) \
+                    and v.args[0].id not in {t.id for t in node.targets[0].elts}:
+                out = []
+                for t, name in zip(node.targets[0].elts, ("dirname", "basename")):
+                    call = ast.Call(func=ast.Attribute(value=ast.Attribute(value=ast.Name(id="os", ctx=ast.Load()), attr="path", ctx=ast.Load()), attr=name, ctx=ast.Load()),
+                                    args=[copy.deepcopy(v.args[0])], keywords=[])
+                    out.append(ast.copy_location(ast.Assign(targets=[ast.Name(id=t.id, ctx=ast.Store())], value=call), node))
+                return out
+            return node
+
+        def visit_Subscript(self, node):
+            self.generic_visit(node)
+            # os.path.split(p)[0] / [1] are dirname(p) / basename(p) (library model: os.path)
+            v = node.value
+            if isinstance(node.ctx, ast.Load) and isinstance(v, ast.Call) and u(v.func) == "os.path.split" and len(v.args) == 1 and not v.keywords \
+                    and isinstance(node.slice, ast.Constant) and node.slice.value in (0, 1):
+                name = "dirname" if node.slice.value == 0 else "basename"
+                return ast.copy_location(ast.Call(func=ast.Attribute(value=ast.Attribute(value=ast.Name(id="os", ctx=ast.Load()), attr="path", ctx=ast.Load()), attr=name, ctx=ast.Load()),
+                                                  args=list(v.args), keywords=[]), node)
+            return node
     fn = F().visit(fn)
     ast.fix_missing_locations(fn)
     return fn
@@ -2679,7 +2716,19 @@ def inline_deferred_lists(fn):
     changed = True
     while changed:
         changed = False
-        for st_ in list(fn.body):
+        blocks = [fn.body] + [getattr(n_, fld) for n_ in ast.walk(fn) if n_ is not fn for fld in ("body", "orelse", "finalbody")
+                              if isinstance(getattr(n_, fld, None), list) and getattr(n_, fld) and isinstance(getattr(n_, fld)[0], ast.stmt)]
+        for blk in blocks:
+            if _deferred_in_block(fn, blk):
+                changed = True
+                break
+    ast.fix_missing_locations(fn)
+    return fn
+
+
+def _deferred_in_block(fn, blk):
+    if True:
+        for st_ in list(blk):
             if not (isinstance(st_, ast.Assign) and len(st_.targets) == 1 and isinstance(st_.targets[0], ast.Name) and isinstance(st_.value, ast.List) and not st_.value.elts):
                 continue
             L = st_.targets[0].id
@@ -2689,17 +2738,17 @@ def inline_deferred_lists(fn):
             loads = [n for n in ast.walk(fn) if isinstance(n, ast.Name) and n.id == L and isinstance(n.ctx, ast.Load)]
             puts = [n for n in ast.walk(fn) if isinstance(n, ast.Expr) and isinstance(n.value, ast.Call) and isinstance(n.value.func, ast.Attribute) and n.value.func.attr in ("append", "extend")
                     and isinstance(n.value.func.value, ast.Name) and n.value.func.value.id == L and not any(isinstance(x, ast.Name) and x.id == L for a_ in n.value.args for x in ast.walk(a_))]
-            cons = [n for n in fn.body if isinstance(n, ast.Expr) and isinstance(n.value, ast.Call) and isinstance(n.value.func, ast.Attribute) and n.value.func.attr == "extend"
+            cons = [n for n in blk if isinstance(n, ast.Expr) and isinstance(n.value, ast.Call) and isinstance(n.value.func, ast.Attribute) and n.value.func.attr == "extend"
                     and isinstance(n.value.func.value, ast.Name) and len(n.value.args) == 1 and isinstance(n.value.args[0], ast.Name) and n.value.args[0].id == L and not n.value.keywords]
             if len(cons) != 1 or not puts or len(loads) != len(puts) + 1:
                 continue
             T = cons[0].value.func.value.id
             if T == L:
                 continue
-            i0, i1 = fn.body.index(st_), fn.body.index(cons[0])
+            i0, i1 = blk.index(st_), blk.index(cons[0])
             if i1 < i0:
                 continue
-            between = fn.body[i0 + 1:i1]
+            between = blk[i0 + 1:i1]
             if any(not any(p_ is x for b_ in between for x in ast.walk(b_)) for p_ in puts):
                 continue            # L is filled somewhere else as well
             blocked = False
@@ -2719,12 +2768,10 @@ def inline_deferred_lists(fn):
                 continue
             for p_ in puts:
                 p_.value.func.value = ast.copy_location(ast.Name(id=T, ctx=ast.Load()), p_.value.func.value)
-            fn.body.remove(st_)
-            fn.body.remove(cons[0])
-            changed = True
-            break
-    ast.fix_missing_locations(fn)
-    return fn
+            blk.remove(st_)
+            blk.remove(cons[0])
+            return True
+    return False
 
 
 def propagate_block_aliases(fn, accessors=frozenset()):
@@ -2844,6 +2891,76 @@ def eliminate_temporaries(fn):
     return fn
 
 
+def fold_membership_get(fn):
+    """`if K in D: x = D[K] else: x = <fresh empty literal / constant>` and `D[K] if K in D else <...>` are `D.get(K, <...>)` (library model:
+    dict.get); K a constant, D a name / attribute chain"""
+    def simple_default(e):
+        return isinstance(e, ast.Constant) or (isinstance(e, (ast.List, ast.Tuple, ast.Set)) and not e.elts) or (isinstance(e, ast.Dict) and not e.keys) \
+            or (isinstance(e, ast.Call) and isinstance(e.func, ast.Name) and e.func.id in ("list", "dict", "tuple", "set") and not e.args and not e.keywords)
+
+    def canon_default(e):
+        if isinstance(e, ast.Call):
+            return {"list": ast.List(elts=[], ctx=ast.Load()), "dict": ast.Dict(keys=[], values=[]), "tuple": ast.Tuple(elts=[], ctx=ast.Load())}.get(e.func.id, e)
+        return e
+
+    def match(test, yes, no):
+        """test `K in D` (or `K not in D`, arms swapped by the caller), yes `D[K]`, no a simple default -> D.get(K, no)"""
+        if not (isinstance(test, ast.Compare) and len(test.ops) == 1 and isinstance(test.ops[0], ast.In) and isinstance(test.left, ast.Constant)
+                and isinstance(test.comparators[0], (ast.Name, ast.Attribute))):
+            return None
+        d = test.comparators[0]
+        if isinstance(yes, ast.Subscript) and u(yes.value) == u(d) and isinstance(yes.slice, ast.Constant) and yes.slice.value == test.left.value and type(yes.slice.value) is type(test.left.value) \
+                and simple_default(no):
+            args = [copy.deepcopy(test.left)] + ([] if isinstance(no, ast.Constant) and no.value is None else [canon_default(copy.deepcopy(no))])
+            return ast.Call(func=ast.Attribute(value=copy.deepcopy(d), attr="get", ctx=ast.Load()), args=args, keywords=[])
+        return None
+
+    def swap(test):
+        if isinstance(test, ast.Compare) and len(test.ops) == 1 and isinstance(test.ops[0], ast.NotIn):
+            return ast.Compare(left=test.left, ops=[ast.In()], comparators=test.comparators)
+        return None
+
+    class T(ast.NodeTransformer):
+        def visit_IfExp(self, node):
+            self.generic_visit(node)
+            r = match(node.test, node.body, node.orelse)
+            if r is None and swap(node.test) is not None:
+                r = match(swap(node.test), node.orelse, node.body)
+            return ast.copy_location(r, node) if r is not None else node
+
+        def visit_If(self, node):
+            self.generic_visit(node)
+            if len(node.body) == 1 and len(node.orelse) == 1 and all(isinstance(x, ast.Assign) and len(x.targets) == 1 and isinstance(x.targets[0], ast.Name) for x in (node.body[0], node.orelse[0])) \
+                    and node.body[0].targets[0].id == node.orelse[0].targets[0].id:
+                r = match(node.test, node.body[0].value, node.orelse[0].value)
+                if r is None and swap(node.test) is not None:
+                    r = match(swap(node.test), node.orelse[0].value, node.body[0].value)
+                if r is not None:
+                    return ast.copy_location(ast.Assign(targets=[ast.Name(id=node.body[0].targets[0].id, ctx=ast.Store())], value=r), node)
+            return node
+    fn = T().visit(fn)
+    # x = <default>; if K in D: x = D[K]
+    def fblock(stmts):
+        out = []
+        i = 0
+        while i < len(stmts):
+            a = stmts[i]
+            b = stmts[i + 1] if i + 1 < len(stmts) else None
+            if isinstance(a, ast.Assign) and len(a.targets) == 1 and isinstance(a.targets[0], ast.Name) and simple_default(a.value) and isinstance(b, ast.If) and not b.orelse and len(b.body) == 1 \
+                    and isinstance(b.body[0], ast.Assign) and len(b.body[0].targets) == 1 and isinstance(b.body[0].targets[0], ast.Name) and b.body[0].targets[0].id == a.targets[0].id:
+                r = match(b.test, b.body[0].value, a.value)
+                if r is not None:
+                    out.append(ast.copy_location(ast.Assign(targets=[ast.Name(id=a.targets[0].id, ctx=ast.Store())], value=r), a))
+                    i += 2
+                    continue
+            out.append(a)
+            i += 1
+        return out
+    fn = _map_blocks(fn, fblock)
+    ast.fix_missing_locations(fn)
+    return fn
+
+
 def normal_form(ix, f, keep):
     """the analysis normal form of one function (DESIGN 15.3).  A pass that meets a tree shape it does not handle is skipped for this
     function (the rules then see the less normalised code and stay inconclusive where they need more) - normalisation never fails a check."""
@@ -2869,6 +2986,7 @@ def normal_form(ix, f, keep):
         lambda t: inline_expressions(ix, f, t, keep=keep),
         lambda t: fold_constants(t, consts, single),
         lambda t: fold_stdlib(ix, f, t, consts, single),
+        lambda t: fold_membership_get(t),
         lambda t: split_unpacking(t),
         lambda t: propagate_aliases(t, ix.accessor_names()),
         lambda t: propagate_block_aliases(t, ix.accessor_names()),
